@@ -2,6 +2,7 @@ import TextxVerif.Wire
 import TextxVerif.BaseTypes
 import TextxVerif.BaseTypesLine
 import TextxVerif.Kwd
+import TextxVerif.KwdSrc
 /-! Driver for the regex engine, the base types (C04) and autokwd (C21).
 Characters travel as code points.  `cc` = {"d":[cp…],"w":[cp…],"s":[cp…],"f":[[cp,cp]…]}: Python's classification
 of the non-ASCII characters of the case (digits, other word characters, spaces, case-fold pairs).
@@ -18,7 +19,12 @@ ops:
   {"op":"compile","cc":…,"lits":[[cp…]…],"autokwd":b,"icase":b}        → {"toks":[{"kind":"str","lit":…,"icase":b}|{"kind":"re","re":AST,"value":[cp…],"groups":n}…]}
   {"op":"parse","cc":…,"g":PE,"icase":b,"ws":[cp…],"ug":b,"text":[cp…]} → {"on":P,"off":P}, P = {"ok":b,"toks":[[pos,value,attr]…]} (autokwd on / off;
         ws = the whitespace set ([] for skipws=False), ug = use_regexp_group; attr = the value for the object graph)
-PE = ["lit",[cp…]] | ["id"] | ["int"] | ["rx",AST,AST|null] | ["seq",a,b] | ["choice",a,b] | ["star",a] | ["opt",a] | ["not",a]
+  {"op":"compilesrc","cc":…,"names":N,"srcs":[[cp…]…],"icase":b}          → {"rows":[{"on":T,"off":T} | {"err":"invalid"|"surrogate"} …]}
+        srcs = grammar string tokens *with their quotes* as written (escape sequences undecoded), T as in op compile;
+        N = [[name cps, cp]…] = Python's Unicode name table for the `\N{name}` written in the case
+  op parse also takes "names":N and PE nodes ["slit",[cp…]] (a literal as written, with quotes); a literal with an
+        invalid escape sequence → {"gerr":"invalid"|"surrogate"} (the grammar is refused)
+PE = ["lit",[cp…]] | ["slit",[cp…]] | ["id"] | ["int"] | ["rx",AST,AST|null] | ["seq",a,b] | ["choice",a,b] | ["star",a] | ["opt",a] | ["not",a]
    | ["empty"] | ["plus",a] | ["and",a] | ["sepplus",a,sep] | ["sepstar",a,sep]
 V = {"b":bool} | {"s":[cp…]} | {"i":"decimal"} | {"f":[cp…]}
 -/
@@ -124,27 +130,53 @@ def item2? (j : Json) : Option (Option Char × List Char) := do
   if p < 0 then pure (none, t)
   else if p.toNat.isValidChar then pure (some (Char.ofNat p.toNat), t) else none
 
-partial def pe? (j : Json) : Option Kwd.PE := do
-  let a ← asArr? j
-  match ← asStr? (← a[0]?) with
-  | "lit" => pure (.lit (← chars? (← a[1]?)))
+def names? (j : Json) : Option Kwd.Names :=
+  match getArr? j "names" with
+  | none => some []
+  | some a => a.toList.mapM fun p => do
+      let xs ← asArr? p
+      pure (← chars? (← xs[0]?), ← chr? (← xs[1]?))
+
+instance : Inhabited (ExceptT Kwd.DecErr Option Kwd.PE) := ⟨(none : Option _)⟩
+
+/-- `none` = undecodable request, `some (.error e)` = a literal of the grammar has an invalid escape sequence -/
+partial def pe? (names : Kwd.Names) (j : Json) : ExceptT Kwd.DecErr Option Kwd.PE := do
+  let a ← liftM (asArr? j)
+  let nth (i : Nat) : ExceptT Kwd.DecErr Option Json := liftM a[i]?
+  match ← liftM (asStr? (← nth 0)) with
+  | "lit" => pure (.lit (← liftM (chars? (← nth 1))))
+  | "slit" =>
+    match Kwd.litOfSrc names (← liftM (chars? (← nth 1))) with
+    | .ok l => pure (.lit l)
+    | .error e => throw e
   | "id" => pure .ident
   | "int" => pure .int
-  | "seq" => pure (.seq (← pe? (← a[1]?)) (← pe? (← a[2]?)))
-  | "choice" => pure (.choice (← pe? (← a[1]?)) (← pe? (← a[2]?)))
-  | "star" => pure (.star (← pe? (← a[1]?)))
-  | "opt" => pure (.opt (← pe? (← a[1]?)))
-  | "not" => pure (.notP (← pe? (← a[1]?)))
+  | "seq" => pure (.seq (← pe? names (← nth 1)) (← pe? names (← nth 2)))
+  | "choice" => pure (.choice (← pe? names (← nth 1)) (← pe? names (← nth 2)))
+  | "star" => pure (.star (← pe? names (← nth 1)))
+  | "opt" => pure (.opt (← pe? names (← nth 1)))
+  | "not" => pure (.notP (← pe? names (← nth 1)))
   | "empty" => pure .empty
   | "rx" =>
-    let body ← a[2]?
-    if body.isNull then pure (.rx (← re? (← a[1]?)) none)
-    else pure (.rx (← re? (← a[1]?)) (some (← re? body)))
-  | "plus" => pure (Kwd.PE.plus (← pe? (← a[1]?)))
-  | "and" => pure (Kwd.PE.andP (← pe? (← a[1]?)))
-  | "sepplus" => pure (Kwd.PE.sepPlus (← pe? (← a[1]?)) (← pe? (← a[2]?)))
-  | "sepstar" => pure (Kwd.PE.sepStar (← pe? (← a[1]?)) (← pe? (← a[2]?)))
-  | _ => none
+    let body ← nth 2
+    if body.isNull then pure (.rx (← liftM (re? (← nth 1))) none)
+    else pure (.rx (← liftM (re? (← nth 1))) (some (← liftM (re? body))))
+  | "plus" => pure (Kwd.PE.plus (← pe? names (← nth 1)))
+  | "and" => pure (Kwd.PE.andP (← pe? names (← nth 1)))
+  | "sepplus" => pure (Kwd.PE.sepPlus (← pe? names (← nth 1)) (← pe? names (← nth 2)))
+  | "sepstar" => pure (Kwd.PE.sepStar (← pe? names (← nth 1)) (← pe? names (← nth 2)))
+  | _ => liftM (none : Option Kwd.PE)
+
+def decErrJ : Kwd.DecErr → Json
+  | .invalid => "invalid" | .surrogate => "surrogate" | .fuel => "fuel"
+
+def tokJ (tok : Kwd.Tok) : Json :=
+  match tok with
+  | .str l i => Json.mkObj [("kind", "str"), ("lit", cps l), ("icase", toJson i)]
+  | .re r v => Json.mkObj [("kind", "re"), ("re", reJ r), ("value", match v with | some l => cps l | none => Json.null),
+      ("groups", toJson tok.groups)]
+  | .reG pre body => Json.mkObj [("kind", "re"), ("re", reJ (.seq pre body)), ("value", Json.null),
+      ("groups", toJson tok.groups)]
 
 def lineItem? (j : Json) : Option (BaseTypes.Item (List Char)) := do
   let a ← asArr? j
@@ -201,19 +233,21 @@ def handle (j : Json) : Json :=
   | some "compile" =>
     match cc? j, (getArr? j "lits").bind (fun a => a.toList.mapM chars?), getBool? j "autokwd", getBool? j "icase" with
     | some cc, some lits, some ak, some ic =>
-      Json.mkObj [("toks", toJson (lits.map fun lit =>
-        let tok := Kwd.compileLit cc ⟨ak, ic⟩ lit
-        match tok with
-        | .str l i => Json.mkObj [("kind", "str"), ("lit", cps l), ("icase", toJson i)]
-        | .re r v => Json.mkObj [("kind", "re"), ("re", reJ r), ("value", match v with | some l => cps l | none => Json.null),
-            ("groups", toJson tok.groups)]
-        | .reG pre body => Json.mkObj [("kind", "re"), ("re", reJ (.seq pre body)), ("value", Json.null),
-            ("groups", toJson tok.groups)]))]
+      Json.mkObj [("toks", toJson (lits.map fun lit => tokJ (Kwd.compileLit cc ⟨ak, ic⟩ lit)))]
+    | _, _, _, _ => badOp
+  | some "compilesrc" =>
+    match cc? j, names? j, (getArr? j "srcs").bind (fun a => a.toList.mapM chars?), getBool? j "icase" with
+    | some cc, some names, some srcs, some ic =>
+      Json.mkObj [("rows", toJson (srcs.map fun tok =>
+        match Kwd.visitStrMatch cc names ⟨true, ic⟩ tok, Kwd.visitStrMatch cc names ⟨false, ic⟩ tok with
+        | .ok on, .ok off => Json.mkObj [("on", tokJ on), ("off", tokJ off)]
+        | .error e, _ | _, .error e => Json.mkObj [("err", decErrJ e)]))]
     | _, _, _, _ => badOp
   | some "parse" =>
-    match cc? j, (getObj? j "g").bind pe?, getBool? j "icase", (getObj? j "text").bind chars?,
-        (getObj? j "ws").bind chars?, getBool? j "ug" with
-    | some cc, some g, some ic, some text, some ws, some ug =>
+    match cc? j, (names? j).bind (fun names => (getObj? j "g").bind (fun g => (pe? names g).run)), getBool? j "icase",
+        (getObj? j "text").bind chars?, (getObj? j "ws").bind chars?, getBool? j "ug" with
+    | some _, some (.error e), some _, some _, some _, some _ => Json.mkObj [("gerr", decErrJ e)]
+    | some cc, some (.ok g), some ic, some text, some ws, some ug =>
       let run (ak : Bool) : Json :=
         match Kwd.parseText cc ⟨ak, ic⟩ ⟨ws, ug⟩ g text with
         | some toks => Json.mkObj [("ok", toJson true),
